@@ -276,7 +276,9 @@ def rule_c13(ctx):
     for o in followed:
         pol = _policy(o.state)
         has_unset = any(e[1][1:] == ("authorization",) for e in _ev(o, "unset_header"))
-        atoms = _auth_atoms(o.state)
+        atoms = _auth_atoms(o.state, run["resolver"].short if run.get("resolver") is not None else None)
+        if atoms["https_other"]:
+            bad.append("the https exemption is tested on a URI other than the redirect target (e.g. the previous request's scheme)")
         host_seen |= atoms["host"] is not None
         scheme_seen |= atoms["scheme"] is not None
         https_seen |= atoms["https"] is not None
@@ -352,10 +354,16 @@ def _is_returned_request(o, addr):
     return key in cur and sub.get(key) == cur.get(key) and path[:2] == (("f", "inner"), ("f", "call"))
 
 
-def _auth_atoms(st):
-    out = dict(host=None, scheme=None, https=None)
+def _auth_atoms(st, resolver_name=None):
+    """host/scheme equality atoms and the `is https` atom; the latter must be about the *target* (the resolver's result):
+    an https test on any other URI is reported through out['https_other']"""
+    out = dict(host=None, scheme=None, https=None, https_other=False)
     for k, v in st.facts.items():
         r = repr(k)
+        if resolver_name and ("Scheme::HTTPS" in r or (v[0] == "nc" and "Uri::scheme" in r and "Scheme::HTTPS" in repr(v))) \
+                and k[0] != "eq" and resolver_name not in r:
+            out["https_other"] = True
+            continue
         if v[0] == "bool" and k[0] == "eq" and "Authority::host" in r:
             out["host"] = v[1]
         elif v[0] == "bool" and k[0] == "eq" and "Uri::scheme" in r and "Authority::host" not in r:
@@ -521,6 +529,40 @@ def rule_c14(ctx):
                         "modified after it was parsed from the current URI" if "'hv'" in rr else rr[:160]))
                 if arg != ("term", ("in", "loc")):
                     badj.append("the reference handed to the resolver is not the Location text itself: %s" % repr(arg)[:120])
+        # the URI handed back is made from the resolution result alone (nothing of the base is mixed back in afterwards)
+        nret = 0
+        for o in outsj:
+            if o.kind != "return" or not shape(o.ret).startswith("Ok("):
+                continue
+            joins = [e for e in o.state.events if e[0].endswith("Url::join")]
+            if not joins:
+                badj.append("a URI is returned without resolving")
+                continue
+            nret += 1
+            rr = repr({k: v for k, v in o.ret.items()})
+            if "Url::join" not in rr:
+                badj.append("the returned URI does not derive from the resolution result")
+                continue
+            # strip every occurrence of the join call term (it contains the base); what is left must not mention the base
+            i0 = rr.find("('call', 'Url::join'")
+            rest = rr
+            while i0 >= 0:
+                depth = 0
+                j = i0
+                while j < len(rest):
+                    if rest[j] == "(":
+                        depth += 1
+                    elif rest[j] == ")":
+                        depth -= 1
+                        if depth == 0:
+                            break
+                    j += 1
+                rest = rest[:i0] + "<JOIN>" + rest[j + 1:]
+                i0 = rest.find("('call', 'Url::join'")
+            if "Url::parse" in rest or "('in', 'req')" in rest:
+                badj.append("the returned URI mixes in parts of the base again after the resolution (e.g. its port)")
+        if nret == 0:
+            badj.append("no successful resolution path")
         ctx.check(nj >= 2 and not badj, "R14.2", "join-operands",
                   "the resolver joins the Location text, unmodified, against the URL parsed from the current effective URI, unmodified "
                   "(query and path of the current URI take part in the resolution; %d join sites on paths)" % nj,
@@ -575,11 +617,30 @@ def rule_c14_last_location(ctx):
         st.write_leaf(FLOW, (("f", "inner"), ("f", "call"), ("$v",)), ("variant", "RecvResponse"))
         st.write_leaf(("IN", "input"), (), ("term", ("in", "input")))
     outs = I.run(tr, [ref(FLOW), ref(("IN", "input"))], init)
+    # the same selection written as a loop: `let mut last = None; for v in get_all("location") { last = Some(v) }`
+    from .mir import last_element_loops
+    from .panics import reachable_from
+    loop_form = False
+    for b_ in reachable_from(prog, [tr]):
+        if b_.is_derived:
+            continue
+        gets = [t for _, t in b_.calls() if short(callee_path(t) or "").endswith("HeaderMap::<T>::get_all")
+                and any(bytes(a.get("bytes", [])) == b"location" for a in t["args"] if isinstance(a, dict))]
+        if not gets:
+            continue
+        idi = last_element_loops(b_)
+        stores_loc = any(s_["k"] == "assign" and s_["place"]["proj"] and "Option<http::HeaderValue>" in s_["place"].get("ty", "").replace("std::option::", "")
+                         for blk in b_.blocks for s_ in blk["stmts"])
+        # exactly one way of reading the location fields in that body: the loop
+        if idi and stores_loc and len(gets) == 1:
+            loop_form = True
     n = bad = 0
     for o in outs:
         if o.kind != "return" or not shape(o.ret).startswith("Ok({0:?,1:Some"):
             continue
         n += 1
+        if loop_form:
+            continue
         loc_tree = o.state.read_tree(FLOW, (("f", "inner"), ("f", "location")))
         txt = repr(loc_tree) + repr([k for k in o.state.facts if "location" in repr(k)])
         uses_get_all = "HeaderMap::<T>::get_all" in txt and repr(("bytes", b"location")) in txt
